@@ -73,6 +73,22 @@ fn entries<T: Tier>(rh: bool, eye: [T; 3], dir: [T; 3], up: [T; 3]) -> (Vec<Entr
         let db: Decomposed<Vector3<T>, Basis3<T>> = Transform::look_at_rh(e, c, u);
         aux.borrow_mut().push(("Decomposed<Basis3>::look_at_rh/scale=1".to_string(), vec![db.scale], vec![T::one()]));
         out.push(("Decomposed<Basis3>::look_at_rh", basis3_arr(db.rot), Some(v3(db.disp))));
+        // ... and as the view matrix a caller hands to the renderer: the conversion of the Decomposed value is judged as
+        // one more Matrix4 constructor of this hand (agreement, eye to the origin, bottom row)
+        {
+            let mm: Matrix4<T> = Matrix4::from(dq);
+            let (r, t) = lin4(mm);
+            out.push(("Matrix4::from(Decomposed<Quaternion>::look_at_rh)", r, t));
+            let a = m4(mm);
+            aux.borrow_mut().push((format!("{}/bottom-row=0,0,0,1", "Matrix4::from(Decomposed<Quaternion>::look_at_rh)"), vec![a[0][3], a[1][3], a[2][3], a[3][3]], vec![T::zero(), T::zero(), T::zero(), T::one()]));
+        }
+        {
+            let mm: Matrix4<T> = Matrix4::from(db);
+            let (r, t) = lin4(mm);
+            out.push(("Matrix4::from(Decomposed<Basis3>::look_at_rh)", r, t));
+            let a = m4(mm);
+            aux.borrow_mut().push((format!("{}/bottom-row=0,0,0,1", "Matrix4::from(Decomposed<Basis3>::look_at_rh)"), vec![a[0][3], a[1][3], a[2][3], a[3][3]], vec![T::zero(), T::zero(), T::zero(), T::one()]));
+        }
     } else {
         out.push(("Matrix3::look_to_lh", m3(Matrix3::look_to_lh(d, u)), None));
         out.push(("Transform<Matrix3>::look_at_lh", m3(<Matrix3<T> as Transform<Point3<T>>>::look_at_lh(e, c, u)), None));
@@ -86,6 +102,22 @@ fn entries<T: Tier>(rh: bool, eye: [T; 3], dir: [T; 3], up: [T; 3]) -> (Vec<Entr
         let db: Decomposed<Vector3<T>, Basis3<T>> = Transform::look_at_lh(e, c, u);
         aux.borrow_mut().push(("Decomposed<Basis3>::look_at_lh/scale=1".to_string(), vec![db.scale], vec![T::one()]));
         out.push(("Decomposed<Basis3>::look_at_lh", basis3_arr(db.rot), Some(v3(db.disp))));
+        // ... and as the view matrix a caller hands to the renderer: the conversion of the Decomposed value is judged as
+        // one more Matrix4 constructor of this hand (agreement, eye to the origin, bottom row)
+        {
+            let mm: Matrix4<T> = Matrix4::from(dq);
+            let (r, t) = lin4(mm);
+            out.push(("Matrix4::from(Decomposed<Quaternion>::look_at_lh)", r, t));
+            let a = m4(mm);
+            aux.borrow_mut().push((format!("{}/bottom-row=0,0,0,1", "Matrix4::from(Decomposed<Quaternion>::look_at_lh)"), vec![a[0][3], a[1][3], a[2][3], a[3][3]], vec![T::zero(), T::zero(), T::zero(), T::one()]));
+        }
+        {
+            let mm: Matrix4<T> = Matrix4::from(db);
+            let (r, t) = lin4(mm);
+            out.push(("Matrix4::from(Decomposed<Basis3>::look_at_lh)", r, t));
+            let a = m4(mm);
+            aux.borrow_mut().push((format!("{}/bottom-row=0,0,0,1", "Matrix4::from(Decomposed<Basis3>::look_at_lh)"), vec![a[0][3], a[1][3], a[2][3], a[3][3]], vec![T::zero(), T::zero(), T::zero(), T::one()]));
+        }
     }
     for (n, m) in deprecated_rh {
         let (r, t) = lin4(m);
